@@ -75,7 +75,7 @@ def main():
         if style == "neutral":
             t.append(" * It must need something SPECIFIC to manifest - a particular interleaving, a crash or fault (e.g. a refused allocation) at a particular point, a multi-step sequence of operations, an unusual input, or two cooperating sites that each look fine alone - not something ordinary use would expose at once. It should look like a plausible refactoring, optimisation, hardening or clean-up that a maintainer could have written and a reviewer could have let through.\n")
         else:
-            t.append(" * It must need something SPECIFIC to manifest, and it should be SUBTLE - the kind of defect that survives review and ordinary testing. Earlier rounds of such changes exist (listed under each property). Go beyond them: two cooperating sites that each look fine alone; defects that need history (state left behind by an earlier, failed or unrelated call); dependence on the environment (addresses, alignment, whether realloc moves, zero-sized allocations, which allocator is installed and when, thread order, re-entrancy); defects visible only to an observer at the right instant (transient writes, bytes beyond what is reported, out-parameters written on paths where they must not be); rarely used public API. It must be DIFFERENT IN MECHANISM from the changes that already exist for that property.\n")
+            t.append(" * It must need something SPECIFIC to manifest, and it should be SUBTLE - the kind of defect that survives review and ordinary testing. Earlier rounds of such changes exist (listed under each property). Go beyond them: two cooperating sites that each look fine alone; defects that need history (state left behind by an earlier, failed or unrelated call); dependence on the environment (addresses, alignment, whether realloc moves, zero-sized allocations, which allocator is installed and when, thread order, re-entrancy); defects visible only to an observer at the right instant (transient writes, bytes beyond what is reported, out-parameters written on paths where they must not be); rarely used public API; dependence on HOW MUCH input or buffer is available beyond what the operation needs; changes at HEADER level (macros and inline functions of src/cbor/*.h, struct layouts and field types in data.h, configuration.h.in / CMake plumbing of the build-time constants); the seam between two API families (streaming decoder + builder callbacks, low-level encoders + serializer, construction API + decoder-built trees, cbor_copy of trees nobody builds by hand). It must be DIFFERENT IN MECHANISM from the changes that already exist for that property.\n")
         t.append(" * The whole existing suite must still pass with the change (run it!).\n")
         t.append(" * Write a demonstration: a small C program (demo.c, linked against %s/_b/src/libcbor.a, headers in %s/src and %s/_b/src and %s/_b) or shell script that exits non-zero (printing FAIL and why) WITH the change and exits 0 (printing PASS) WITHOUT it. Verify both directions yourself.\n" % (wt, wt, wt, wt))
         t.append(" * Store for each change the directory %s/<ID>/ (e.g. %s/%s-%d%s/) containing: patch.diff (output of `git -C %s diff` for that change ALONE, relative to the unchanged HEAD), demo.c (or demo.sh), and meta.json with keys: \"property\", \"summary\" (what was changed, file/function, and why it breaks the property), \"needs\" (what it takes to manifest), \"demo_build\" (exact shell command building the demo, absolute paths), \"demo_run\" (exact command running it, absolute paths), \"ran\" (what you ran and observed, both directions).\n" % (out, out, ids[0], wave, "" if per == 1 else "a", wt))
